@@ -19,7 +19,7 @@ Note:
 |
 """
 
-from stix2.markings import granular_markings, object_markings
+from stix2.markings import granular_markings, object_markings, utils
 
 
 def get_markings(obj, selectors=None, inherited=False, descendants=False, marking_ref=True, lang=True):
@@ -224,20 +224,20 @@ def is_marked(obj, marking=None, selectors=None, inherited=False, descendants=Fa
         descendants,
     )
 
-    if inherited:
-        granular_marks = granular_markings.get_markings(obj, selectors)
-        object_marks = object_markings.get_markings(obj)
-
-        if granular_marks:
-            result = granular_markings.is_marked(
-                obj,
-                granular_marks,
-                selectors,
-                inherited,
-                descendants,
+    if inherited and not result:
+        # Object level markings are inherited by every property.
+        if marking is None:
+            result = object_markings.is_marked(obj)
+        else:
+            # All user-provided markings must be found, at either level.
+            wanted = utils.convert_to_marking_list(marking)
+            found = granular_markings.get_markings(
+                obj, selectors, inherited, descendants,
             )
-
-        result = result or object_markings.is_marked(obj, object_marks)
+            found.extend(
+                utils.convert_to_list(object_markings.get_markings(obj)) or [],
+            )
+            result = bool(wanted) and all(m in found for m in wanted)
 
     return result
 
